@@ -179,6 +179,60 @@ def check_roles(ctx, rep):
     bound_of_child = bool(bdef) and isinstance(bdef[0].value, ast.Subscript) and row_of(bdef[0].value.slice) == 1
     rep.check('C06.R', 'GeneralNodeHeightTransform._inverse::child-over-parent', ok and bound_of_child, where(g.module, inv), {**facts, 'bound_indexed_by_child': bound_of_child},
               "ratio = (h[child] − bound[child]) / (h[parent] − bound[child]): numerator indexed by row 1, denominator by row 0, the child's bound in both")
+    # what is returned is that quotient itself (followed by the root height): nothing is applied to it on the way out
+    import copy
+    rets = [r for r in ast.walk(inv) if isinstance(r, ast.Return) and r.value is not None]
+    env = {}
+
+    class Sub(ast.NodeTransformer):
+        def visit_Name(self, n):
+            if isinstance(n.ctx, ast.Load) and n.id in env:
+                return copy.deepcopy(env[n.id])
+            return n
+    # straight-line substitution in statement order (a redefinition `r = f(r)` sees the previous value of r)
+    for st in inv.body:
+        if isinstance(st, ast.Assign) and len(st.targets) == 1 and isinstance(st.targets[0], ast.Name):
+            env[st.targets[0].id] = Sub().visit(copy.deepcopy(st.value))
+        elif isinstance(st, (ast.If, ast.For, ast.While, ast.With, ast.Try)):
+            for n in ast.walk(st):
+                if isinstance(n, ast.Name) and isinstance(n.ctx, ast.Store):
+                    env.pop(n.id, None)
+
+    def inline(e, depth=0):
+        return Sub().visit(copy.deepcopy(e))
+    IDENTITY = {'clone', 'contiguous'}
+    NOT_IDENTITY = {'clamp', 'clamp_', 'clip', 'clamp_min', 'clamp_max', 'round', 'abs', 'maximum', 'minimum', 'where', 'sigmoid', 'relu', 'nan_to_num', 'floor', 'ceil', 'sqrt', 'exp', 'log'}
+    verdict, why_txt = None, ''
+    if len(rets) == 1:
+        rv = inline(rets[0].value)
+        parts = _cat_last(rv) if isinstance(rv, ast.Call) else None
+        if parts and len(parts) == 2:
+            q = inline(parts[0])
+            wrappers = []
+            while True:
+                if isinstance(q, ast.Call) and isinstance(q.func, ast.Attribute) and not (isinstance(q.func.value, ast.Name) and q.func.value.id == 'torch'):
+                    wrappers.append(q.func.attr)
+                    q = inline(q.func.value)
+                elif isinstance(q, ast.Call) and isinstance(q.func, ast.Attribute) and q.args:
+                    wrappers.append(q.func.attr)
+                    q = inline(q.args[0])
+                else:
+                    break
+            is_quot = isinstance(q, ast.BinOp) and isinstance(q.op, ast.Div)
+            bad_w = [w for w in wrappers if w in NOT_IDENTITY]
+            unknown_w = [w for w in wrappers if w not in NOT_IDENTITY and w not in IDENTITY]
+            if is_quot and not wrappers:
+                verdict = True
+            elif is_quot and bad_w:
+                verdict, why_txt = False, f"the quotient is passed through {bad_w} before it is returned"
+            elif is_quot and not unknown_w:
+                verdict = True
+            facts2 = {'wrappers_around_quotient': wrappers, 'returns_quotient': is_quot}
+    if verdict is None:
+        rep.undecided('C06.R', 'GeneralNodeHeightTransform._inverse::returns-the-quotient-unchanged', where(g.module, inv), 'the returned value is not cat((quotient, y[..., -1:]), -1) up to naming')
+    else:
+        rep.check('C06.R', 'GeneralNodeHeightTransform._inverse::returns-the-quotient-unchanged', verdict, where(g.module, inv), facts2,
+                  f"GeneralNodeHeightTransform._inverse: {why_txt}; wherever that function is not the identity (ratios near 0 or 1) inverse(forward(x)) differs from x")
 
 
 def check_algebra(ctx, rep):
@@ -421,6 +475,9 @@ def check_shift(ctx, rep):
 def run(ctx, rep):
     from sa import callbind
     callbind.run_for(ctx, rep, 'C06', 8)
+    from sa import dtypes
+    rep.rule('C06.T', "times / dates given as Python numbers enter the computation at the requested precision: a tensor built from them without a dtype (torch's default float32) is neither computed with nor converted afterwards")
+    dtypes.check_default_precision(ctx, rep, 'C06.T', ['torchtree.evolution.tree_model'], 1)
     rep.explanation = (
         "C06.D: in every class whose constructor chooses an attribute among several constructor calls, stores to that attribute elsewhere must not "
         "install a fixed member of the set (the ratio/shift parameterisation must survive cuda()/cpu()).  C06.R: writer/reader layout check of the "
@@ -438,3 +495,13 @@ def run(ctx, rep):
             f(ctx, rep)
         except Unsupported as u:
             rep.undecided(rule, f.__name__, f"line {getattr(u.node, 'lineno', 0)}", str(u))
+    # C06.H — the heights / branch lengths that are served belong to the current parameter values
+    from props import c11
+    from sa.report import RuleProxy
+    rep.rule('C06.H', "node heights and branch lengths served from a cache belong to the current parameters: the height transforms keep torch's identity-keyed cache off, "
+                      "and a dirty flag shared by several caches of a tree model is cleared only where all of them are refreshed")
+    c11.check_transform_cache(ctx, RuleProxy(rep, 'C06.H', 'transform-cache::'), modules={TH}, floor=2)
+    tree_base = ctx.classes.get(f"{TM}.TimeTreeModel")
+    n = c11.check_shared_flags(ctx, RuleProxy(rep, 'C06.H', 'flags::'), only=lambda c: c is tree_base or c.has_base(tree_base.qualname))
+    if n < 4:
+        rep.incomplete('C06.H', 'flags::*', '', f"only {n} flag-clearing sites found in the time-tree models")
